@@ -20,7 +20,7 @@ def run(c):
     binp = c.build("txn")
     c.tlc_must_pass("TxnStoreMC", c.pick("TxnStoreMC.cfg", "TxnStoreMC_thorough.cfg"), workers=8, timeout=c.pick(300, 1500))
     # 1. random sequential multi-store programs (commit / rollback), strict
-    g = _txncfg.gen(c, "a", MaxStores=3, MaxTxns=5, MaxOps=c.pick(14, 40), Keys=c.pick(12, 20), DupStores=True, Neighbour=True)
+    g = _txncfg.gen(c, "a", MaxStores=3, MaxTxns=5, MaxOps=c.pick(14, 40), Keys=c.pick(12, 20), DupStores=True, Neighbour=True, ClearL2=15)
     seq = txnlib.run_driver(c, binp, "seq", _txncfg.cfg(c, "seq", c.pick(60, 600), g))
     rej = txnlib.validate(c, seq, "TxnStoreTrace.cfg")
     for r in rej:
